@@ -733,3 +733,111 @@ func (c *TermCtx) Query(logic string, asserts []*Term, getModel bool, extraSyms 
 	}
 	return sb.String()
 }
+
+// ---------- partial evaluation under known-true atoms ----------
+
+type simpEnv struct {
+	c     *TermCtx
+	known map[*Term]bool // term -> truth value
+	memo  map[*Term]*Term
+}
+
+// knownFrom collects literals from a conjunction assumed true.
+func (c *TermCtx) newSimpEnv(assumed *Term) *simpEnv {
+	e := &simpEnv{c: c, known: map[*Term]bool{}, memo: map[*Term]*Term{}}
+	var add func(t *Term, val bool)
+	add = func(t *Term, val bool) {
+		if t.bound {
+			return
+		}
+		switch {
+		case t.op == "and" && val:
+			for _, a := range t.args {
+				add(a, true)
+			}
+		case t.op == "or" && !val:
+			for _, a := range t.args {
+				add(a, false)
+			}
+		case t.op == "not":
+			add(t.args[0], !val)
+		default:
+			e.known[t] = val
+		}
+	}
+	add(assumed, true)
+	return e
+}
+
+func (e *simpEnv) simp(t *Term) *Term {
+	if v, ok := e.known[t]; ok && t.sort == SBool {
+		return e.c.Bool(v)
+	}
+	if len(t.args) == 0 {
+		return t
+	}
+	if r, ok := e.memo[t]; ok {
+		return r
+	}
+	c := e.c
+	var r *Term
+	switch t.op {
+	case "and":
+		var as []*Term
+		for _, a := range t.args {
+			as = append(as, e.simp(a))
+		}
+		r = c.And(as...)
+	case "or":
+		var as []*Term
+		for _, a := range t.args {
+			as = append(as, e.simp(a))
+		}
+		r = c.Or(as...)
+	case "not":
+		r = c.Not(e.simp(t.args[0]))
+	case "=>":
+		r = c.Implies(e.simp(t.args[0]), e.simp(t.args[1]))
+	case "ite":
+		g := e.simp(t.args[0])
+		if g.isTrue() {
+			r = e.simp(t.args[1])
+		} else if g.isFalse() {
+			r = e.simp(t.args[2])
+		} else {
+			r = c.Ite(g, e.simp(t.args[1]), e.simp(t.args[2]))
+		}
+	case "=":
+		r = c.Eq(e.simp(t.args[0]), e.simp(t.args[1]))
+	case "select":
+		r = c.Select(e.simp(t.args[0]), e.simp(t.args[1]))
+	case "store":
+		r = c.Store(e.simp(t.args[0]), e.simp(t.args[1]), e.simp(t.args[2]))
+	case "forall", "exists":
+		b := e.simp(t.args[0])
+		if t.op == "forall" {
+			r = c.Forall(t.qvars, b)
+		} else {
+			r = c.Exists(t.qvars, b)
+		}
+	default:
+		changed := false
+		as := make([]*Term, len(t.args))
+		for i, a := range t.args {
+			as[i] = e.simp(a)
+			if as[i] != a {
+				changed = true
+			}
+		}
+		if !changed {
+			r = t
+		} else {
+			r = c.mk(t.op, t.name, t.sort, as...)
+		}
+	}
+	if v, ok := e.known[r]; ok && r.sort == SBool {
+		r = c.Bool(v)
+	}
+	e.memo[t] = r
+	return r
+}
